@@ -34,6 +34,10 @@ WORKERS = 4            # concurrent harness / driver processes
 
 PROPS = {
     "C19": {
+        "design_ref": "6.6/C19",
+        "technique": "Lean 4 proof over a byte-level model of LocaleInfo::get with an explicit 64-byte buffer (safety for every string, get = spec) + kernel-decided facts over tables regenerated from LocaleInfo.cpp on every run (translator) + exhaustive table-product correspondence under ASan",
+        "level_text": "Machine-checked proof that the byte-level transcription of get (memcpy/strcmp as partial operations that fail on overflow, negative length, missing terminator, uninitialised result) returns .ok for every byte string and equals the plain specification (known language key x known country key, optional charset suffix -> that code, all names for it, that country; anything else -> the English/United Kingdom fallback with error set; every returned string is a table component). Table-dependent premises (no key has '_' or NUL, keys < 64 bytes, codes and names disjoint, ...) are re-proved by decide +kernel over Lean tables regenerated from src/LocaleInfo.cpp on every run. Tied to the real code by running model, Python oracle and the real get() (ASan, poisoned stack) on all language x country x suffix combinations plus adversarial and random strings.",
+        "level_note": "Trusted: Lean kernel; libc string functions and std::list as modelled; the lexical table translator (cross-checked against an independent parse and the compiled tables each run); interpretive choices recorded in assumptions; unbounded Int lengths.",
         "lean_modules": ["Tulz.Props.C19"],
         "theorems": ["Tulz.C19_table_facts", "Tulz.C19_safe", "Tulz.C19_get_eq_spec", "Tulz.C19_known_code", "Tulz.C19_known_name",
                      "Tulz.C19_known", "Tulz.C19_other", "Tulz.C19_error_iff", "Tulz.C19_pointers",
